@@ -68,9 +68,10 @@ def _obs(ctx, key, tag):
     d[tag] = d.get(tag, 0) + 1
 
 
-def judge(ctx, case, sig, outcome, res, gexp, d, fd=False, logf=0.0, tag=""):
+def judge(ctx, case, sig, outcome, res, gexp, d, fd=False, logf=0.0, tag="", tol=None):
     """Compare one gradient() call with the specification.
-    outcome: table entry (Value / Refused / ValueFD); gexp: expected vector or None (outside the support -> non-finite)."""
+    outcome: table entry (Value / Refused / ValueFD); gexp: expected vector or None (outside the support -> non-finite).
+    tol: absolute tolerance of the comparison (reference vectors that are not exact: part Classes, c03_gallery.py)."""
     st, v, warns = res
     if st == "raise":
         if outcome != "Refused":
@@ -102,11 +103,15 @@ def judge(ctx, case, sig, outcome, res, gexp, d, fd=False, logf=0.0, tag=""):
     arr = arr.ravel()
     if fd:
         ok = bool(np.all(np.isfinite(arr))) and bool(np.all(np.abs(arr - gexp) <= 1e-4 * max(1.0, np.max(np.abs(gexp))) + 2e-5 * (1.0 + abs(logf))))
+    elif tol is not None:
+        ok = bool(np.all(np.isfinite(arr))) and bool(np.max(np.abs(arr - gexp)) <= tol)
     else:
         from cuqiverif import families_common as fc
         ok = fc.vclose(arr, gexp, RTOL, 1e-12)
     if not ok:
-        ctx.mismatch(sig, case, "gradient is not the derivative of the documented log-density" + (" (finite differences enabled)" if fd else ""),
+        ctx.mismatch(sig, case, ("gradient is not the derivative of the object's own log-density (reference: Richardson-extrapolated "
+                                 "central differences of its logd)" if case.get("selfdef") else
+                                 "gradient is not the derivative of the documented log-density") + (" (finite differences enabled)" if fd else ""),
                      gexp, arr)
     elif outcome == "Refused":
         _obs(ctx, "correct_value_where_refusal_is_specified", tag)
@@ -572,14 +577,16 @@ def run(ctx):
     from cuqiverif import families_common as fc, tlc
     from cuqiverif.core import MachineryError
     from cuqiverif.props import c04
-    from cuqiverif import c03_seq, c03_round5
+    from cuqiverif import c03_seq, c03_round5, c03_gallery
     seq_jobs = c03_seq.start_tlc(ctx)          # Families.reassign + FamiliesSeq (+ its named deviation), in background threads
     r5_jobs = c03_round5.start_tlc(ctx)        # FamiliesSeq parts Siblings (+ named deviation) and Points
+    gal_jobs = c03_gallery.start_tlc(ctx)      # FamiliesGallery (class table, Richardson tableau, gallery lattice, stacked pairs; 2 deviations)
     try:
         res = fc.run_families(ctx)
     except BaseException:
         c03_seq.discard_tlc(seq_jobs)
         c03_round5.discard_tlc(r5_jobs)
+        c03_gallery.discard_tlc(gal_jobs)
         raise
     ctx.model_must_hold(res, "Families")
     cases = list(res.cases)
@@ -613,12 +620,20 @@ def run(ctx):
     except BaseException:
         c03_seq.discard_tlc(seq_jobs)
         c03_round5.discard_tlc(r5_jobs)
+        c03_gallery.discard_tlc(gal_jobs)
         raise
     # two conditioned copies of ONE conditional distribution alive together; dimension-1 evaluation points in every container
     try:
         c03_round5.run(ctx, table, r5_jobs, re_cases)
     except BaseException:
         c03_round5.discard_tlc(r5_jobs)
+        c03_gallery.discard_tlc(gal_jobs)
+        raise
+    # every public class of cuqi.distribution: benchmark gallery (self-defined log-densities), stacked joints, user-defined likelihoods
+    try:
+        c03_gallery.run(ctx, table, gal_jobs)
+    except BaseException:
+        c03_gallery.discard_tlc(gal_jobs)
         raise
     n = ctx.traces
     ctx.observations["cases_per_family"] = {f: len(v) for f, v in fams.items()}
@@ -662,4 +677,7 @@ def replay(ctx, case):
     if case.get("kind") in ("siblings", "point", "ptlik", "pthyp"):
         from cuqiverif import c03_round5
         return c03_round5.replay(ctx, table, case)
+    if case.get("kind") in ("gallery", "stack", "classrow"):
+        from cuqiverif import c03_gallery
+        return c03_gallery.replay(ctx, table, case)
     dispatch(ctx, table, case, extras=True, idx=case.get("cfg", {}).get("x", 0))
